@@ -2,11 +2,12 @@
 """Regenerates /verif/MANIFEST.json from the table below (hand-maintained)."""
 import json, subprocess
 
-HOOKS = ["ec13311"]
-try:
-    HOOKS = [subprocess.check_output(["git","-C","/repo","rev-parse","ec13311"]).decode().strip()]
-except Exception:
-    pass
+HOOKS = []
+for h in ["ec13311","79a2761"]:
+    try:
+        HOOKS.append(subprocess.check_output(["git","-C","/repo","rev-parse",h]).decode().strip())
+    except Exception:
+        HOOKS.append(h)
 
 P = {}
 def chk(pid, engine, technique, text, note, ref=None):
@@ -69,6 +70,31 @@ chk("C20","vsched",
  "exhaustive enumeration of KDC behaviour combinations (1-3 KDCs, UDP and TCP) x realms x payload sizes on the real handler with deadlines firing at quiescence, plus stateless DFS over schedules of handler, reply readers and KDC threads for the 1-2 KDC scenarios",
  "4.5 k scenarios: 1 KDC: 4 realms x 9 payload sizes x 3 UDP x 7 TCP behaviours; 2 and 3 KDCs: all behaviour combinations; each under the default schedule, the small ones under every schedule up to the bound. KDCs of the right realm receive exactly the embedded message, a complete reply from any connection yields 200 with exactly that reply wrapped, otherwise an error status; always an HTTP response, no goroutine left.",
  "Behaviours are assigned in dial order because gokrb5 randomises KDC order; deadlines fire only at quiescence; explicit DER tags.")
+
+chk("C05","gwproc",
+ "exhaustive enumeration of (authentication subset x method x Authorization shape) and NTLM message histories against the real rdpgw binary with a scripted authentication service; reference routing oracle",
+ "The real binary is started once per startable authentication subset (11 configurations) behind a scripted auth service (password table for PAM, the real NTLM verifier); 6 methods x ~40 Authorization shapes plus NTLM type-1/type-3 histories on one and two connections are sent over real sockets: 401 with exactly one challenge per enabled scheme without Authorization, the handler reached iff credentials of an enabled scheme were confirmed, the tunnel carries the confirmed user (observed via which loopback backend the channel reaches), no panic in the log.",
+ "PAM replaced by a table; Kerberos only negative (no forged ticket); real sockets with 10 s read deadlines; wrong-case scheme words and doubled Authorization lines unspecified.")
+chk("C12","enum + seqx",
+ "exhaustive enumeration of the product selection mode x host list x host parameter x user x IdP subject x splitting x template x session state x address form (round-robin pick enumerated through a controlled random source) through the real router pieces, followed by the tunnel round trip on the real handler; reference selection / claims oracle",
+ "8.4 k cases (quick; thorough: the full product) through the real EnrichContext, Authenticated, HandleCallback and HandleDownload with a scripted IdP: no login => redirect and no token; login => well-formed file naming the configured gateway and a policy-conformant host, token MAC valid and claims exactly {host, session user, client address, IdP access token, issuer, exp<=5min}; then host and token are presented unmodified to the real tunnel path and must open the channel.",
+ "Cookie session store; round-robin randomness replaced by an enumerated pick via the build overlay; known finding: placeholder host entries with an IdP subject different from the user-name claim.")
+chk("C13","seqx + vsched",
+ "exhaustive enumeration of browser histories (depth 3 cookie store / 2 file store; thorough 4 / 3) over a 47-operation alphabet against the real router pieces with a scripted IdP and a harness clock, all single-character mutations and truncations of a session cookie, identity contents, and every schedule (preemption bound 2) of two concurrent logins; reference session oracle",
+ "Every history of /connect, /callback (state issued to this / the other browser / never / stale x 11 code behaviours) and clock jumps is run on the real EnrichContext, Authenticated, HandleCallback for both session stores and both browsers are observed after every step; altered, foreign and orphaned cookies never yield an authenticated session; stored identities are restored field by field; two concurrent logins keep their own identities in every schedule.",
+ "State-store clock is the harness clock; securecookie's own lifetime uses real time; base64 spellings that decode to the same cookie bytes are the same cookie.")
+chk("C15","enum",
+ "exhaustive enumeration of a constructed token alphabet (all single-character mutations of the five JWE segments, truncations, segment counts, other keys / algorithms / issuers / expiries, plain JWTs, clock history) x key modes x user names against the real UserInfo / TokenInfo handler; three-valued oracle from an independent AES-CBC-HMAC and HS256 implementation",
+ "About 35 k tokens per run in both key modes: 200 with sub == user only for must-accept tokens, 403 without any claim for must-refuse ones, 400 / 405 as stated, user name not readable from the token text, cross-mode tokens refused, expiry judged against the (harness-controlled) current time.",
+ "The security package's time.Now follows the harness clock through the build overlay; expiry cases keep 10 s from the leeway boundary; non-canonical base64 of the same header bytes is unspecified.")
+chk("C18","enum (child processes) + gwproc",
+ "exhaustive enumeration of the configuration lattice through the real config.Load in child processes (3 k configurations x file / environment / both, key-length matrix loaded twice) and of start-up of the real binary (96-384 configurations), plus a two-instance cross-acceptance scenario with a real OpenID login",
+ "Every combination of authentication subset (incl. the basic alias), TLS, host selection, query key, keytab, cookie auth and source is loaded by the real config.Load: refused exactly per the reference list, effective settings equal the given ones; keys absent or shorter than 32 characters are replaced by values that differ between two loads; the real binary exits non-zero before listening for refused configurations and listens otherwise; a session cookie and access token of one real instance with short keys are refused by a second one.",
+ "Documented key capitalisation and RDPGW_SECTION__KEY environment names; keys longer than 32 characters outside the property; start-up observed for 20 s.")
+chk("C19","enum",
+ "exhaustive enumeration of single and pairwise setting deviations through the real builder/reader and download handler, of all strings of length <= 5 (thorough 6) over an 11-symbol alphabet against a reference parser, and of small setting maps through marshal/parse",
+ "About 200 k cases: every single-field and (every 5th / all) two-field deviation of the ~60 settings is written by the real builder, checked against an independent line grammar and read back; every single-field template is served through the real HandleDownload and must keep non-default template settings except the gateway-controlled ones; the real parser must agree with a reference parser on every short string; parse(marshal(m)) == m for maps of 1-3 settings.",
+ "String values without CR/LF and without leading/trailing blanks; lines up to 16 KiB; temporary files in the build directory.")
 
 def build():
     checks=[]
